@@ -52,4 +52,17 @@ def declaredTotal : List ZEnt → Nat
 def FileAt (fs : FS) (dir : Path) (rel : List Str) (c : List Nat) : Prop :=
   rel ≠ [] ∧ fs.get (dir ++ rel) = some (.file c)
 
+/-- an entry whose reader behaves as the zip format promises for an intact archive: a 64-bit
+header value, Open succeeds, the stream delivers exactly `declared` bytes and then EOF, and
+the OS accepts the writes -/
+def Honest (e : ZEnt) : Prop :=
+  e.declared < 2 ^ 64 ∧ e.openErr = false ∧ e.streamErr = false ∧ e.wfail = none ∧
+  e.data.length = e.declared
+
+/-- the target of an extraction is fresh: nothing exists strictly beneath it, and neither it
+nor any of its ancestors is a regular file (so MkdirAll can succeed) -/
+def FreshTarget (fs : FS) (dir : Path) : Prop :=
+  (∀ q n, fs.get q = some n → ¬ StrictUnder dir q) ∧
+  (∀ q c, AtOrAbove dir q → fs.get q ≠ some (.file c))
+
 end CueVerif.Modzip
